@@ -126,7 +126,7 @@ def _check_history(c, fp, dpm, ids, nids, dt, wspd, prm, label):
     ok(int(nids) == len(issued), "identifiers_are_exactly_0_to_N_minus_1", f"reported {nids}, issued {issued}")
 
 
-@contract(TR + "np_track_partitions", props=["C19", "C20"], scenarios=[{"mode": "exhaustive"}, {"mode": "random"}], replays=4)
+@contract(TR + "np_track_partitions", props=["C19", "C20"], scenarios=[{"mode": "exhaustive"}, {"mode": "random"}], replays=24)
 def v_track(c, mode):
     if c.m.symbolic:
         c.ensure_true("placeholder_structural", True)
@@ -172,6 +172,19 @@ def v_track(c, mode):
         dpm[:, t0 - 1:t0 + 1] = np.nan
         fp[q, t0 - 1], dpm[q, t0 - 1] = 0.08, 100.0
         fp[0, t0], dpm[0, t0] = 0.08 + r.uniform(-0.0005, 0.0005), (100.0 + c.rng.choice([-1, 1]) * r.uniform(16, 34)) % 360
+    elif c.rng.random() < 0.35:
+        # wind sea under a changing wind: the peak frequency of slot 0 drops by an amount lying between the
+        # fetch-limited growth limits of the two winds; the limit of the step being LEFT decides
+        t0 = c.rng.randrange(1, T)
+        wspd[t0 - 1], wspd[t0] = c.rng.choice([(5.0, 20.0), (20.0, 5.0), (6.0, 15.0)])
+        f0 = 0.30
+
+        def lim(w):
+            tmp = 15.8 * (9.81 / w) ** 0.57
+            return tmp * ((f0 / tmp) ** (-1 / 0.43) + 3600.0) ** (-0.43) - f0
+
+        fp[0, t0 - 1], dpm[0, t0 - 1] = f0, 200.0
+        fp[0, t0], dpm[0, t0] = f0 + 0.5 * (lim(wspd[t0 - 1]) + lim(wspd[t0])), 203.0
     elif c.rng.random() < 0.4:  # wave systems swapping partition slots
         t0 = c.rng.randrange(1, T)
         fp[:, t0:] = fp[::-1, t0:]
